@@ -22,7 +22,7 @@ MTYPES = {
     2: ['sym', 'sym', 'poly', 'poly', 'polyneg', 'polyc', 'affine', 'identity', 'polar', 'target', 'czarny', 'collela'],
     3: ['sym', 'poly', 'polyneg', 'affine', 'identity', 'torus', 'spherical', 'twisted'],
 }
-ORACLE_ONLY = ('collela',)
+ORACLE_ONLY = ('collela', 'czarnyf')
 
 
 def _r(rng, lo=1, hi=4, den=(2, 3, 5)):
@@ -91,6 +91,10 @@ class MEnv:
         elif mtype == 'czarny':
             params = dict(c2=0, eps=Rational(1, 10), b=Rational(7, 5))
             M = am.CzarnyMapping(name, **params)
+        elif mtype == 'czarnyf':
+            # floating-point parameters (the determinant of a float matrix is numerically delicate)
+            params = dict(c2=0.0625, b=2.0, eps=0.46875)
+            M = am.CzarnyMapping(name, **params)
         elif mtype == 'collela':
             params = dict(eps=Rational(1, 10), k1=1, k2=1)
             M = am.CollelaMapping2D(name, **params)
@@ -158,6 +162,9 @@ class MEnv:
             ex = poly_expressions(rng, self.dim, neg=rng.random() < 0.3)
             F = [sympy.sympify(ex[n]).subs({Symbol('x%d' % (i + 1)): LOGI[i] for i in range(3)}) for n in ('x', 'y', 'z')[:self.dim]]
         F = [sympy.sympify(f).subs({Symbol('x%d' % (i + 1)): LOGI[i] for i in range(3)}) for f in F]
+        if any(f.atoms(sympy.Float) for f in F) and self.mtype != 'collela':
+            # exact ground truth: the float parameters are dyadic rationals
+            F = [sympy.nsimplify(f, rational=True) for f in F]
         return F, cst
 
 
